@@ -115,6 +115,10 @@ class WGen:
         r = ch.int(0, 99)
         if r < calls:
             return self.call(env, depth)
+        # an if-expression: sites in the condition and in each arm are visited condition-first, which is not
+        # source order
+        if depth < 2 and ch.int(0, 99) < {'call': 22, 'mixed': 12, 'rewrite': 14, 'insert': 12}.get(self.focus, 4):
+            return f'({self.expr(env, depth + 1, calls)} if {self.cond(env, depth + 1)} else {self.expr(env, depth + 1, calls)})'
         r = ch.int(0, 99)
         if self.focus == 'rewrite' and r < 40:
             return f'({self.expr(env, depth + 1)} * {self.leaf(env)} + {self.leaf(env)})'
@@ -127,10 +131,20 @@ class WGen:
             return f'(-{self.var(env)})'
         return self.leaf(env)
 
-    def cond(self, env):
+    def cond(self, env, depth=1):
         ch = self.ch
-        lhs = self.expr(env, 1) if ch.bool(0.5) else self.leaf(env)
-        return f'{lhs} {ch.choice([">", "<", ">=", "<="])} {self.leaf(env)}'
+        r = ch.int(0, 99)
+        rel = lambda: ch.choice([">", "<", ">=", "<="])
+        if r < 50:
+            lhs = self.expr(env, depth) if ch.bool(0.5) else self.leaf(env)
+            return f'{lhs} {rel()} {self.leaf(env)}'
+        if r < 70:
+            # a chained comparison: three operands of one node
+            return f'{self.expr(env, depth)} {rel()} {self.leaf(env)} {rel()} {self.expr(env, depth)}'
+        if r < 90:
+            op = ch.choice(['and', 'or'])
+            return f'({self.expr(env, depth)} {rel()} {self.leaf(env)} {op} {self.expr(env, depth)} {rel()} {self.leaf(env)})'
+        return f'{self.leaf(env)} {rel()} {self.expr(env, depth)}'
 
     # -- statements --------------------------------------------------------
     def block(self, depth, env, n):
@@ -166,6 +180,13 @@ class WGen:
     def st_assign(self, depth, env):
         if self.focus in ('call', 'mixed', 'rewrite', 'insert') and self.ch.bool(0.08):
             return self.st_misc(depth, env)
+        if self.focus in ('call', 'mixed', 'rewrite') and self.ch.bool(0.07):
+            # a comprehension: its iterable is visited before its element (the element does not hand the loop
+            # variable to a call, which inlining would hoist out of its scope)
+            m, v = self.fresh('m'), self.fresh('v', 'y')
+            it = 'h4(xs)' if self.focus != 'rewrite' and self.ch.bool(0.6) else 'xs'
+            self.emit(depth, f'{m} = [{self.expr(env, 1)} + {v} for {v} in {it}]')
+            return
         if self.focus in ('rewrite', 'mixed') and self.ch.bool(0.2):
             # the window a two-statement rule `y = a * b; z = c + d` matches
             m, m2 = self.fresh('m'), self.fresh('m')
@@ -363,6 +384,8 @@ ENUM_TEXT = {
     'for': {'o': '{m} = a0 + 1', 'S': 'for {i} in xs:', 'R': 'for {i} in range(3):', 'N': 'if a0 > 1:'},
     'while': {'o': '{m} = a0 + 1', 'S': 'while {k} > 0:', 'N': 'if a0 > 1:'},
     'call': {'o': '{m} = a0 + 1', 's': '{m} = h0(a0, a1)', 's2': '{m} = h0(h1(a0), a1)', 'r': '{m} = h2(a0)',
+             's3': '{m} = h0(a0, 1) if h1(a1) > 0 else h3(a0)', 's4': '{m} = h3(a0) if (h0(a0, 1) > 0 and 1 < h1(a1) < h0(a1, 2)) else a1',
+             's5': '{m} = [h0(a0, 1) + v for v in h4(xs)]',
              'N': 'for {i} in xs:', 'N2': 'if h0(a0, 1) > a1:'},
     'round': {'o': '{m} = a0 + 1', 's': 'with {site}:\n{ind}    {m} = fp.round(a0)', 'r': 'with fp.REAL:\n{ind}    {m} = fp.round(a1)',
               'N': 'for {i} in xs:', 'N2': 'if a0 > 1:'},
@@ -388,8 +411,8 @@ def render_shape(kind, shape, site_ctx='fp.FP16', variant=0):
         ind = '    ' * (depth + 1)
         if isinstance(it, str):
             key = it
-            if it == 's' and 's2' in T and (variant + n[0]) % 3 == 0:
-                key = 's2'
+            if it == 's' and 's2' in T:
+                key = ['s2', 's3', 's4', 's5', 's', 's3', 's'][(variant + n[0]) % 7]
             for ln in T[key].format(m=fresh('m'), site=site_ctx, ind=ind).split('\n'):
                 lines.append(ind + ln if not ln.startswith(ind) else ln)
             return
